@@ -762,6 +762,8 @@ def it_symbolic_key(it, table, key, node):
         if known in table:
             return table[known]
         it.may_raise("KeyError", node, f"key {known!r}", certain=True, witness=known)
+    if hasattr(th, "register_keyset"):
+        th.register_keyset(id(table), keys)
     feasible = []
     for k in keys:
         d = th.decide(Sym("cmp", "Eq", key, k))
@@ -770,10 +772,9 @@ def it_symbolic_key(it, table, key, node):
         if d is None:
             feasible.append(k)
     miss = Sym("in", key, ("keys", id(table)))
-    dm = th.decide(Sym("not", miss)) if hasattr(th, "register_keyset") else None
     if hasattr(th, "register_keyset"):
         th.register_keyset(id(table), keys)
-        dm = th.decide(Sym("not", miss))
+    dm = th.decide(Sym("not", miss))
     options = list(feasible)
     n = len(options) + (0 if dm is False else 1)
     c = it.choose(n, "dict key")
